@@ -289,7 +289,9 @@ func c18reg(c *core.Ctx, record bool) {
 		}()
 	}
 	close(start)
-	wg.Wait()
+	if !joinOrDeadlock(c, &wg, "reg", "a round of concurrent AtomicValue calls", map[string]any{"type": reg.name, "goroutines": ng}) {
+		return
+	}
 	mode := "reg"
 	if !record {
 		mode = "race"
